@@ -248,10 +248,17 @@ class Impl:
     def render(self, src, safeMode=None, htmlReplacement=None, reset=None, callback=False):
         msgs = []
         cb = (lambda msg: msgs.append(msg.text)) if callback else None
-        opts = self.rimu.RenderOptions(safeMode=safeMode, htmlReplacement=htmlReplacement, reset=reset, callback=cb)
+        # only the options that are given are passed (the defaults of RenderOptions and of render() are part of the code
+        # under test); a call with none at all alternates between render(src) and render(src, RenderOptions())
+        kw = {k: v for k, v in (('safeMode', safeMode), ('htmlReplacement', htmlReplacement), ('reset', reset), ('callback', cb))
+              if v is not None}
+        self._calls = getattr(self, '_calls', 0) + 1
         try:
             with time_limit(self.budget):
-                html = self.rimu.render(src, opts)
+                if not kw and self._calls % 2:
+                    html = self.rimu.render(src)
+                else:
+                    html = self.rimu.render(src, self.rimu.RenderOptions(**kw))
         except RecursionError:
             return ('fuel', 'RecursionError')
         except MemoryError:
